@@ -320,8 +320,24 @@ def eval_names(job):
     n_named = sum(1 for n in nodes if n[-1])
     dw = pp.ParserElement.DEFAULT_WHITE_CHARS
     recs = []
+    inputs = list(job["inputs"])
+    if any(m[0] != "none" for m in job.get("modes", [])):
+        # the model predicts a memoized run by the plain parser (packrat_transparent): keep the inputs on which the plain
+        # parser is fast, too (exponential backtracking without the cache would stall the driver, not the real code)
+        import time as _t
+        fast = []
+        for s in inputs:
+            pp.ParserElement.disable_memoization()
+            t0 = _t.process_time()
+            try:
+                common.with_alarm(0.3, real_outcome, pp, root, s)
+            except common.CaseTimeout:
+                continue
+            if _t.process_time() - t0 < 0.1:
+                fast.append(s)
+        inputs = fast
     for mode in job.get("modes", [("none",)]):
-        for s in job["inputs"]:
+        for s in inputs:
             corr_parse.set_mode(pp, mode)
             try:
                 impl, toks, probs = common.with_alarm(corr_parse.CASE_TIMEOUT, real_outcome, pp, root, s)
@@ -350,6 +366,9 @@ def run_names(ctx, stream, jobs):
         for k in r["kinds"]:
             kinds[k] = kinds.get(k, 0) + 1
         for (s, mode, im, tk, line, tline, probs) in r["records"]:
+            if im == "hang":     # the real call exceeded the per-case CPU limit (exponential backtracking): not comparable
+                skips["case-timeout"] = skips.get("case-timeout", 0) + 1
+                continue
             c = {"prog": job["prog"], "root": job["root"], "input": s, "mode": mode}
             cases.append(c)
             lines.append(line)
@@ -585,10 +604,10 @@ def twin_of(prog):
     for t in prog:
         if t is st:
             twin.append([st[0] + "_loc", "Located", st[2]])
-            twin.append([st[0], "name", st[0] + "_loc", st[3]])
+            twin.append([st[0], "name", st[0] + "_loc", st[3].rstrip("*") + "*"])   # the twin lists ALL matches
         else:
             twin.append(t)
-    return st[3].rstrip("*"), st[3].endswith("*"), twin, defs.get(st[2], [None, None])[1]
+    return st[3].rstrip("*"), st[3].endswith("*"), twin, defs.get(st[2], [None, None])[1], st[0]
 
 
 def _reports(pp, got, lst, is_group):
@@ -605,13 +624,19 @@ def twin_job(job):
     t = twin_of(job["prog"])
     if t is None:
         return 0, []
-    name, star, twin, inner_op = t
+    name, star, twin, inner_op, var = t
     try:
-        g1 = gram.prepare(gram.build(pp, job["prog"]), job["root"])
+        b1 = gram.build(pp, job["prog"])
+        g1 = gram.prepare(b1, job["root"])
         g2 = gram.prepare(gram.build(pp, twin), job["root"])
         if corr_parse.nullable_rep(pp, g1):
             return 0, []
     except Exception:  # noqa
+        return 0, []
+    # a parse action on the named element (also one inherited through copy()) replaces what the element "matched": with a
+    # token-replacing action a list-valued name reports the first token only (theorem replaced_tokens_first_only; reported
+    # to the lead as a candidate finding) - out of this oracle's region
+    if b1.env[var].parseAction or any(e.resultsName == name and e.parseAction for e in gram._walk_all(g1)):
         return 0, []
     pp.ParserElement.disable_memoization()
     n, bad = 0, []
@@ -630,8 +655,7 @@ def twin_job(job):
         r1, r2 = rr
         if name not in r2:        # only where the name surfaces at the top level
             continue
-        loc = r2[name]
-        locs = list(loc) if star else [loc]
+        locs = list(r2[name])
         if not all(isinstance(l, pp.ParseResults) and "value" in l and isinstance(l["value"], pp.ParseResults) for l in locs):
             continue
         seen = [l["value"].as_list() for l in locs]      # the tokens of each match of the element, in order
@@ -644,9 +668,15 @@ def twin_job(job):
         got = r1[name]
         gl = list(got) if (star and isinstance(got, pp.ParseResults)) else [got]
         ok = False
-        for cand in (seen, [l for l in seen if l]):     # a token element that matched nothing binds nothing
-            if len(cand) == len(gl) and all(_reports(pp, g, l, inner_op == "Group") for g, l in zip(gl, cand)):
-                ok = True
+        nonempty = [l for l in seen if l]               # a match without tokens may bind nothing
+        if star:
+            for cand in (seen, nonempty):
+                if len(cand) == len(gl) and all(_reports(pp, g, l, inner_op == "Group") for g, l in zip(gl, cand)):
+                    ok = True
+        else:                                           # last match by default
+            for cand in (seen[-1:], nonempty[-1:]):
+                if cand and _reports(pp, gl[0], cand[0], inner_op == "Group"):
+                    ok = True
         if not ok:
             bad.append(dict(rec, expected=seen, actual=[_plain(pp, g) for g in gl]))
     return n, bad
@@ -675,16 +705,16 @@ def run(ctx):
     NONE = [("none",)]
     MEMO = [("packrat", 128), ("packrat", None), ("lr", None)]
     mk_random = lambda rng, k: gen.gen_case(rng, gen.Cfg(**RANDOM_CFG), k)
-    run_names(ctx, "model-vs-real:random", gen_jobs(ctx, "rand", ctx.budget(1500, 15000), mk_random, NONE))
-    djobs = gen_jobs(ctx, "dir", ctx.budget(2500, 25000), directed_case, NONE)
+    run_names(ctx, "model-vs-real:random", gen_jobs(ctx, "rand", ctx.budget(5000, 50000), mk_random, NONE))
+    djobs = gen_jobs(ctx, "dir", ctx.budget(9000, 90000), directed_case, NONE)
     run_names(ctx, "model-vs-real:directed", djobs)
-    run_names(ctx, "model-vs-real:memo", gen_jobs(ctx, "memo", ctx.budget(500, 4000), directed_case, MEMO, 4))
+    run_names(ctx, "model-vs-real:memo", gen_jobs(ctx, "memo", ctx.budget(1500, 12000), directed_case, MEMO, 4))
     mult = 5 if (ctx.broken and not ctx.fail_inputs) else 1
     if mult > 1:   # (d) a broken obligation / correspondence without a failing input yet: search wider
-        run_names(ctx, "search:directed", gen_jobs(ctx, "search", ctx.budget(2500, 25000) * 2, directed_case, NONE))
+        run_names(ctx, "search:directed", gen_jobs(ctx, "search", ctx.budget(9000, 90000) * 2, directed_case, NONE))
     # ---- constructed expectations ------------------------------------------------------------------
     rng = ctx.subrng("constructed")
-    ccases = [constructed_case(rng) for _ in range(ctx.budget(1500, 15000) * mult)]
+    ccases = [constructed_case(rng) for _ in range(ctx.budget(8000, 60000) * mult)]
     for c in ccases[::7]:
         c["modes"] = [("none",), ("packrat", 128), ("lr", None)]
     cres = common.pmap(constructed_job, ccases)
@@ -700,7 +730,7 @@ def run(ctx):
     ctx.count_cases("oracle:constructed", len(ccases), distinct_keys=[json.dumps(c, sort_keys=True) for c in ccases],
                     outcomes=dict(kinds, problems=nbad), samples=ccases[:2])
     # ---- Located twin ---------------------------------------------------------------------------------
-    tjobs = djobs[: ctx.budget(1200, 12000) * mult]
+    tjobs = djobs
     tres = common.pmap(twin_job, tjobs)
     tn = sum(r[0] for r in tres)
     tbad = sorted([b for r in tres for b in r[1]], key=lambda b: (len(b["prog"]), len(b["input"])))
